@@ -206,51 +206,9 @@ Fixpoint size (s : sched) : nat :=
   | _ => 1%nat
   end.
 
-(* ---------------------------------------------------------------- flat machine *)
-(* The specification machine: a list of leaf parts run one after the other, each started at
-   the finish time of the one before.  [f_next_from now x r]: x is the current part. *)
-Fixpoint f_next_from (now : Z) (x : sched) (r : list sched) : res (list sched * Z * bool) :=
-  do y <- s_next 1 now x ;;
-  let '(x', tx, ok) := y in
-  if ok then Ok (x' :: r, tx, true)
-  else match r with
-       | [] => Ok ([x'], tx, false)
-       | z :: r2 => do z' <- s_start tx z ;; f_next_from now z' r2
-       end.
-Definition f_next (now : Z) (fl : list sched) : res (list sched * Z * bool) :=
-  match fl with [] => Panic PIndex | x :: r => f_next_from now x r end.
-
-Definition leaf_left (now : Z) (x : sched) : Z :=
-  match x with
-  | DoAt n _ _ i _ => Z.of_nat (n - i)
-  | Unlim _ None => -1
-  | Unlim _ (Some fin) => if now <? fin then -1 else 0
-  | Comp _ _ _ => 0
-  end.
+(* ---------------------------------------------------------------- flattening *)
 Definition unknown_part (x : sched) : bool :=
   match x with Unlim _ _ => true | _ => false end.
-Definition sum_left (now : Z) (l : list sched) : Z :=
-  fold_right (fun x a => leaf_left now x + a) 0 l.
-
-(* Left of the flat machine: exact count, or -1 while an unlimited part is not finished;
-   an exhausted current part followed by an unlimited part is left behind first (the next
-   part starts at its finish time). *)
-Fixpoint f_left_from (now : Z) (x : sched) (r : list sched) : res (list sched * Z) :=
-  match r with
-  | [] => Ok ([x], leaf_left now x)
-  | z :: r2 =>
-      let lft := leaf_left now x in
-      if lft <? 0 then Ok (x :: r, -1)
-      else if existsb unknown_part r then
-        if lft =? 0 then
-          do y <- s_next 1 now x ;;
-          let '(x', fin, ok) := y in
-          if ok then Panic PNotFinished else do z' <- s_start fin z ;; f_left_from now z' r2
-        else Ok (x :: r, -1)
-      else Ok (x :: r, lft + sum_left now r)
-  end.
-Definition f_left (now : Z) (fl : list sched) : res (list sched * Z) :=
-  match fl with [] => Panic PIndex | x :: r => f_left_from now x r end.
 
 Fixpoint flatten (s : sched) : list sched :=
   match s with
